@@ -17,7 +17,7 @@
            raw = Some caps: the reader is a raw stream, read(-1) = readall() = read(buf) until an empty read
            (buf = io.DEFAULT_BUFFER_SIZE), then file.read asks once more: one more (empty) read call. *)
 From Coq Require Import List ZArith NArith Bool Arith.
-From RxVerif Require Import Base.Corr Framing.Line Container.Parquet Container.JsonLines Container.Json.
+From RxVerif Require Import Base.Corr Framing.Line Container.Parquet Container.JsonLines Container.Json Container.FloatText Container.JsonFloat.
 Import ListNotations.
 
 Inductive c19case :=
@@ -32,7 +32,10 @@ Inductive c19case :=
 (* the model of orjson on the float-free subset (Container/Json.v) against the real library:
    dumps = (value, the bytes rxsci json.dump emitted for it, newline removed = orjson.dumps(value)),
    loads = (text, what orjson.loads answers on it: None = it raises or the result holds a float) *)
-| CJsonModel (dumps : list (jv * list Z)) (loads : list (list Z * option jv)).
+| CJsonModel (dumps : list (jv * list Z)) (loads : list (list Z * option jv))
+(* the same with finite binary64 floats (Container/JsonFloat.v): a float travels as the triple (sign, m, e) of its
+   canonical form (ffloat); loads answers None only when orjson raises *)
+| CJsonFloat (fdumps : list (jvf * list Z)) (floads : list (list Z * option jvf)).
 
 Definition ns_eqb := list_eqb N.eqb.
 Definition count_nonzero (l : list N) : N := N.of_nat (length (filter (fun x => negb (x =? 0)%N) l)).
@@ -90,4 +93,5 @@ Definition c19_check (c : c19case) : bool :=
                            | None, None => true
                            | _, _ => false
                            end) loads
+  | CJsonFloat fdumps floads => jsonf_model_check fdumps floads
   end.
